@@ -343,6 +343,8 @@ class Daemon(object):
                 current_context.correlation_id = uuid.UUID(bytes=msg.corr_id)
             else:
                 current_context.correlation_id = uuid.uuid4()
+            if msg.serializer_id not in serializers.serializers_by_id:
+                raise errors.SerializeError("message used serializer that is not accepted: %d" % msg.serializer_id)
             serializer_id = msg.serializer_id
             serializer = serializers.serializers_by_id[serializer_id]
             data = serializer.loads(msg.data)
